@@ -521,3 +521,18 @@ func verifLemmaOrder(a, b, c Endpoint) (irrefl, trans, total bool) {
 //@   at initialDecode 0: assert !options.NoCopy && (!options.Pool || len(entry_data) > 1500) && len(entry_data) > 0 ==> arg0.packet.data.arr != entry_data.arr
 //@   at initialDecode 0: assert options.NoCopy ==> arg0.packet.data.arr == entry_data.arr && arg0.packet.data.off == entry_data.off
 //@   at initialDecode 0: assert len(entry_data) > 0 ==> arg0.packet.data[0] == old(entry_data[0]) && arg0.packet.data[len(entry_data) - 1] == old(entry_data[len(entry_data) - 1])
+
+// ---- parser.go: the decoder looked up for a layer type (C05) -------------------------------------------------------
+
+// The array container answers with the decoder of the first element registered for the type, and "not found" only
+// when no element has that type; the sparse container answers with the slot of the type.
+//@ func (dl DecodingLayerArray) Decoder(typ LayerType) (DecodingLayer, bool)
+//@   props C05
+//@   ensures result1 ==> (exists k int :: 0 <= k && k < len(dl) && dl[k].typ == typ && result0 == dl[k].dec && (forall j int :: 0 <= j && j < k ==> dl[j].typ != typ))
+//@   ensures !result1 ==> result0 == nil && (forall j int :: 0 <= j && j < len(dl) ==> dl[j].typ != typ)
+//@   loop 0: invariant forall j int :: 0 <= j && j <= rangeindex ==> dl[j].typ != typ
+//@ func (dl DecodingLayerSparse) Decoder(typ LayerType) (DecodingLayer, bool)
+//@   props C05
+//@   ensures result1 ==> 0 <= typ && typ < len(dl) && result0 == dl[typ] && result0 != nil
+//@   ensures !result1 ==> result0 == nil
+//@   ensures 0 <= typ && typ < len(dl) ==> result0 == dl[typ]
